@@ -3,7 +3,7 @@ branch-choice rule of C09 (DESIGN.md A.1-A.3).  No fastavro imports."""
 import struct
 from collections.abc import Mapping, Sequence
 
-from .names import deref, branch_name, accepts_null
+from .names import deref, branch_name, accepts_null, default_value
 
 INT_MIN, INT_MAX = -(1 << 31), (1 << 31) - 1
 LONG_MIN, LONG_MAX = -(1 << 63), (1 << 63) - 1
@@ -182,7 +182,7 @@ def normalise(node, defs, d, indices=None, tuples=True):
             if f["name"] in d:
                 v = d[f["name"]]
             elif "default" in f:
-                v = f["default"]
+                v = default_value(f["type"], defs, f["default"])
             else:
                 v = None
             out[f["name"]] = normalise(f["type"], defs, v, indices, tuples)
@@ -226,7 +226,7 @@ def check_choices(node, defs, d, indices, tuples=True, path="$"):
             if f["name"] in d:
                 v = d[f["name"]]
             elif "default" in f:
-                v = f["default"]
+                v = default_value(f["type"], defs, f["default"])
             else:
                 v = None
             out += check_choices(f["type"], defs, v, indices, tuples, f"{path}.{f['name']}")
